@@ -28,6 +28,10 @@ def vec4 {α : Type} (a b c d : α) : Fin 4 → α := fun i =>
 @[simp, core_unfold] theorem vec4_2 {α : Type} (a b c d : α) : vec4 a b c d 2 = c := rfl
 @[simp, core_unfold] theorem vec4_3 {α : Type} (a b c d : α) : vec4 a b c d 3 = d := rfl
 
+@[simp, core_unfold] theorem succ3_0 : Fin.succ (0 : Fin 3) = (1 : Fin 4) := rfl
+@[simp, core_unfold] theorem succ3_1 : Fin.succ (1 : Fin 3) = (2 : Fin 4) := rfl
+@[simp, core_unfold] theorem succ3_2 : Fin.succ (2 : Fin 3) = (3 : Fin 4) := rfl
+
 theorem fin3_cases {P : Fin 3 → Prop} (h0 : P 0) (h1 : P 1) (h2 : P 2) : ∀ i, P i := by
   intro i
   match i with
